@@ -45,6 +45,21 @@ Fourth wave (domains and the sharper comparison in mc/domains/w4_c18.py):
   points, for all 9 enthalpy x entropy unit pairs and T_ref 298.15 (thorough:
   and 500), built by loading a file in those units and directly, written in the same
   units.
+
+Fifth wave (domains and the per-part comparison in mc/domains/w5_c18.py):
+* partial unit choices: every combination of molar enthalpy in {left out,
+  None, kcal/mol, kJ/mol, J/mol} x molar entropy in {left out, None,
+  cal/(mol K), J/(mol K), kJ/(mol K)} x molar heat capacity in the same five x
+  temperature in {left out, K, kK} = 375 choices (heat capacities in other
+  units than the entropy; any part left without units, which yaml_format
+  documents as "written as dimensionless values"), each applied to 8
+  correlations: many-digit values in every slot built directly and by
+  loading, zeros in every slot, H_ref / S_ref / the Cp table / the range
+  missing in turn, and a lone Cp point;
+* the statement is read PER PART in EVERY family, after the two older
+  comparisons found nothing: a part (H_ref, S_ref, heat capacities) for which
+  the unit choice names no units is in the non-dimensional form and must come
+  back exactly.
 """
 import itertools
 import os
@@ -55,6 +70,7 @@ from ..domains import estimates as E
 from ..domains import libs
 from ..domains import w3_c18 as W
 from ..domains import w4_c18 as X
+from ..domains import w5_c18 as Y
 
 TWO_HASH_SEEDS = ('thorough',)   # tiers in which the space is walked under a second PYTHONHASHSEED
 LEVEL = 'exploration'
@@ -85,7 +101,10 @@ BOUND = {t: 'table sizes %s (with and without a zero entry) x 7 H x 3 S x 2 '
             '5 unit choices; six-digit dimensional data +-14 mantissas x 10**e, e '
             'in %s, in H, S and two Cp points x 9 enthalpy/entropy unit pairs x %s '
             'T_ref x {loaded from a file in those units, direct}, written in the '
-            'same units'
+            'same units; 375 partial unit choices (5 enthalpy x 5 entropy x 5 '
+            'heat-capacity choices incl. left out and None x 3 temperature '
+            'choices incl. left out) x 8 correlations (many-digit values direct '
+            'and loaded, zeros, each part missing in turn, a lone Cp point)'
             % ([0, 1, 2, 3] if t == 'quick' else [0, 1, 2, 3, 7, 15],
                '-9..9' if t == 'quick' else '-12..12', W.hist_len(t),
                '-1..2' if t == 'quick' else '-3..4', 1 if t == 'quick' else 2)
@@ -107,7 +126,14 @@ RULE = ('each correlation is formatted with yaml_format(units), the text '
         'the chosen units (mc/domains/w4_c18.py: strict_problems); the cases of '
         'the temperature, range and six-digit-data families all count as '
         'non-trivial; a correlation of those families that cannot be constructed '
-        '(source-unbuildable) has no verdict')
+        '(source-unbuildable) has no verdict.  Fifth wave: when both older '
+        'comparisons find nothing, every case of every family is compared a '
+        'third time part by part (mc/domains/w5_c18.py: slot_problems): '
+        'H_ref, S_ref and the heat capacities must each come back exactly '
+        'when the unit choice names no units (key left out, or None) for that '
+        'part, whatever it names for the others; a part with units is held to '
+        'six digits by the older comparisons, each with that part\'s own '
+        'units.  Every case of the partial-unit family counts as non-trivial')
 ASSUMPTIONS = ['"six significant digits" is judged with a relative tolerance '
                'of 1e-5 (two roundings can compound in the dimensional form) and, '
                'since the fourth wave, also as half a unit of the sixth digit of '
@@ -122,6 +148,10 @@ ASSUMPTIONS = ['"six significant digits" is judged with a relative tolerance '
                'two tabulated temperatures that are written as the same six-digit '
                'number are not part of any family (they cannot come back as two '
                'points)',
+               'in a unit choice, a value part "without units" means the key is '
+               'left out or maps to None, as yaml_format documents; the '
+               'temperature key is left out or names a unit (None is not '
+               'documented for it and is not enumerated)',
                'histories use only the documented mutator methods (no direct '
                'attribute assignment); a mutator raising (e.g. update() after '
                'del_ND_Cp() left the table as None) is outside this property']
@@ -143,7 +173,11 @@ MANIFEST = dict(
          'as the same or as neighbouring six-digit numbers, and dimensional data '
          'that are exactly six-digit numbers in the units they are written in '
          'must come back to within half a unit of the sixth digit; that sharper '
-         'reading is applied to every case of every family.',
+         'reading is applied to every case of every family.  Every one of '
+         'the 375 unit choices that name units for some parts and none (key '
+         'left out, or None) for others - heat capacities in other units than '
+         'the entropy included - is applied to 8 correlations; a part without '
+         'units must come back exactly, a part with units to six digits.',
     note='Values come from a small alphabet chosen to hit zero, absence, '
          'exponent notation and numpy scalar types.',
     ref='5/C18')
@@ -275,7 +309,8 @@ def compare(src, back, dimensional):
     return probs
 
 
-def roundtrip(R, src, units, wit, label, nontrivial, head='roundtrip', snap=False):
+def roundtrip(R, src, units, wit, label, nontrivial, head='roundtrip', snap=False,
+              form=None):
     """Write src with `units`, read the text back both ways, compare.
 
     With snap=True (histories) the expectation is a plain copy of the fields
@@ -312,12 +347,14 @@ def roundtrip(R, src, units, wit, label, nontrivial, head='roundtrip', snap=Fals
             probs = compare(src, back, dimensional)
             if not probs:      # fourth wave: "six digits" = half a unit of the sixth
                 probs = X.strict_problems(src, back, units)
+            if not probs:      # fifth wave: a part without units must be exact
+                probs = Y.slot_problems(src, back, units)
         except Exception as e:      # noqa
             probs = ['cannot be loaded back (%s: %s)' % (type(e).__name__, str(e)[:120])]
         R.outcomes['%s:%s' % (how, 'same' if not probs else 'differs')] += 1
         if probs:
             cls = probs[0].split(':')[0].split(' (')[0].split('(')[0]
-            R.violation('%s:%s:%s' % (head, cls, 'dimensional' if dimensional else 'nd'),
+            R.violation('%s:%s:%s' % (head, cls, form or ('dimensional' if dimensional else 'nd')),
                         '%s written with units %r and read back (%s): %s\n--- text ---\n%s'
                         % (label, units, how, probs[0], text), dict(wit, how=how))
             break
@@ -504,6 +541,31 @@ def run_x(R, kind, i, n, tier):
             x_one(R, kind, key, built, uis)
 
 
+def partial_one(R, ci, uis):
+    """One correlation of the fifth-wave family, written in the partial unit
+    choices uis (indices into Y.PARTIAL_UNITS)."""
+    name, c, built = Y.CORRS[ci]
+    try:
+        src = build_case(c, built)
+    except Exception as e:      # noqa
+        R.evals += 1
+        R.outcomes['source-unbuildable:' + type(e).__name__] += 1
+        return
+    for ui in uis:
+        u = Y.PARTIAL_UNITS[ui]
+        roundtrip(R, src, u, dict(kind='partial', corr=ci, unit=ui),
+                  'correlation %r (%s) H=%r S=%r Cp=%r range=%r T_ref=%r'
+                  % (name, built, c['H'], c['S'], sorted(c['tab'].items()),
+                     c['rng'], c['tref']),
+                  True, head='partial', form=Y.form(u))
+
+
+def run_partial(R, i, n):
+    uis = [ui for ui in range(len(Y.PARTIAL_UNITS)) if ui % n == i]
+    for ci in range(len(Y.CORRS)):
+        partial_one(R, ci, uis)
+
+
 def shards(tier, seed):
     out = []
     n = 16 if tier == 'quick' else 48
@@ -523,6 +585,8 @@ def shards(tier, seed):
     for kind, n in (('temp', 4), ('range', 2), ('six', 4 if tier == 'quick' else 16)):
         for i in range(n):
             out.append((kind, i, n))
+    for i in range(5):
+        out.append(('partial', i, 5))
     return out
 
 
@@ -538,6 +602,8 @@ def run_shard(shard, tier):
         run_pair(R, shard[1], shard[2])
     elif shard[0] in ('temp', 'range', 'six'):
         run_x(R, shard[0], shard[1], shard[2], tier)
+    elif shard[0] == 'partial':
+        run_partial(R, shard[1], shard[2])
     else:
         run_lib(R, shard[1], shard[2], shard[3])
     return R
@@ -557,6 +623,8 @@ def replay(w):
         pair_one(R, w['first'], w['unit'])
     elif w['kind'] in ('temp', 'range', 'six'):
         x_one(R, w['kind'], tuple(w['key']), w['built'], [w['unit']])
+    elif w['kind'] == 'partial':
+        partial_one(R, w['corr'], [w['unit']])
     else:
         run_lib(R, w['lib'], 0, 1, only=(w['group'], w['unit']))
     return dict(violates=bool(R.violations),
